@@ -60,7 +60,8 @@ def markZombie (m : Multi) (idx : Nat) : Multi :=
     { m with members := m.members.modify idx (fun mem => { mem with zombie := true }) }
   else
     let lc := m.memberRows idx
-    ({ m with z := m.z + lc, target := { m.target with llc := m.target.llc - lc } }).removeIdx idx
+    let kept := if m.target.fx.fkept then min m.target.llc lc else lc
+    ({ m with z := m.z + kept, target := { m.target with llc := m.target.llc - lc } }).removeIdx idx
 
 /-- `MultiState::draw(force, extra_lines, now)` of the pinned commit -/
 def drawOrig (m : Multi) (force : Bool) (extra : Option (List Line)) (now : Nat) : Multi × List TOp :=
@@ -96,7 +97,8 @@ def drawFixed (m : Multi) (force : Bool) (extra : Option (List Line)) (now : Nat
   let (ops, llc) := drawToTerm m.target.fx ds m.target.W m.target.H m.target.llc
   let m := { m with target := { m.target with ds := ds, llc := llc }, orphan := [] }
   let m := reap.foldl removeIdx m
-  let m := if !hasText then { m with z := m.z + adjust, target := { m.target with llc := m.target.llc - adjust } } else m
+  let kept := if m.target.fx.fkept then min m.target.llc adjust else adjust
+  let m := if !hasText then { m with z := m.z + kept, target := { m.target with llc := m.target.llc - adjust } } else m
   ({ m with stale := false }, ops)
 
 def draw (m : Multi) (force : Bool) (extra : Option (List Line)) (now : Nat) : Multi × List TOp :=
